@@ -6,7 +6,9 @@ ORDINARY = ['PREY', 'PREDATOR', 'SHEEP', 'WOLF', 'GRASS', 'TAG1', 'TAG2', 'Tag3'
 HOSTILE_INSTANCE = ['itemize', 'add_tag', 'get_tag_name', '_tag_counter', '_tag_names', '__len__', '__class__', '__dict__', '__init__',
                     '__doc__', '__weakref__', '__module__', '__getattr__', '__getattribute__', '__setattr__', '__slots__', '__hash__',
                     '__eq__', '__repr__', '__new__', 'mro', '__name__', '', ' ', 'two words', '1st', 'tag-with-dash', 'näme', '标签',
-                    'none', 'None', 'NONE ', 'x' * 10000, 'km\u00b2', '\ufb01sh', '\uff21\uff22', '\u212bngstrom', 'e\u0301', 'self', 'lambda', 'tag.with.dots', '\n', 'TagLibrary', '_module_library']
+                    'none', 'None', 'NONE ', 'x' * 10000, 'km\u00b2', '\ufb01sh', '\uff21\uff22', '\u212bngstrom', 'e\u0301', 'self', 'lambda', 'tag.with.dots', '\n', 'TagLibrary', '_module_library',
+                    # pairs of distinct names that unicode compatibility normalisation would merge (both members are in the pool)
+                    'km2', 'fish', '\u00b5', '\u03bc', 'AB', 'Caf\u00e9', 'Cafe\u0301', '\u00c5ngstrom']
 HOSTILE_MODULE = HOSTILE_INSTANCE + ['TagLibrary', 'DuplicateTagError', 'TagNotFoundError', '_module_library', '__file__', '__builtins__',
                                      '__spec__', '__loader__', '__package__', '__path__', '__all__', '__cached__', 'itemize', 'add_tag']
 
@@ -42,6 +44,10 @@ def own_attribute_names(tags):
 UNKNOWN_PROBES = ['NEVER_ADDED', 'Unknown9', 'ZZZ']
 
 
+COMPAT_PAIRS = [('km\u00b2', 'km2'), ('\ufb01sh', 'fish'), ('\u00b5', '\u03bc'), ('\uff21\uff22', 'AB'), ('Caf\u00e9', 'Cafe\u0301'),
+                ('\u212bngstrom', '\u00c5ngstrom')]
+
+
 def gen_names(rng, n, hostile, extra=(), first=()):
     out = []
     if first and rng.random() < 0.35:
@@ -56,6 +62,10 @@ def gen_names(rng, n, hostile, extra=(), first=()):
             out.append('NONE')
         elif x < 0.62:
             out.append(f'GEN_{rng.randint(0, 10 ** 6)}')
+        elif x < 0.66:
+            pair = list(rng.choice(COMPAT_PAIRS))          # two DIFFERENT names that compatibility normalisation would merge
+            rng.shuffle(pair)
+            out.extend(pair)
         elif x < 0.8 or not extra:
             out.append(rng.choice(hostile))
         else:
